@@ -646,7 +646,7 @@ class TexExpr(object):
             whitespace will be removed from contents.
         :param int position: position of first character in original source
         """
-        self.name = name.strip()  # TODO: should not ever have space
+        self.name = name
         self.args = TexArgs(args)
         self.parent = None
         self._contents = list(contents) or []
